@@ -7,7 +7,7 @@ import socksio
 
 from .._backends.auto import AutoBackend
 from .._backends.base import AsyncNetworkBackend, AsyncNetworkStream
-from .._exceptions import ConnectionNotAvailable, ProxyError
+from .._exceptions import ConnectionNotAvailable, ProxyError, map_exceptions
 from .._models import URL, Origin, Request, Response, enforce_bytes, enforce_url
 from .._ssl import default_ssl_context
 from .._synchronization import AsyncLock, AsyncShieldCancellation
@@ -249,7 +249,9 @@ class AsyncSocks5Connection(AsyncConnectionInterface):
                     async with Trace(
                         "setup_socks5_connection", logger, request, kwargs
                     ) as trace:
-                        await _init_socks5_connection(**kwargs)
+                        # Replies that socksio cannot parse are proxy errors.
+                        with map_exceptions({socksio.ProtocolError: ProxyError}):
+                            await _init_socks5_connection(**kwargs)
                         trace.return_value = stream
 
                     # Upgrade the stream to SSL
